@@ -395,6 +395,9 @@ func (x *exec) opText(st scn.Step) (text, api string, limit int) {
 		if st.N == 0 {
 			return text, "select", 0
 		}
+		if st.N == 2 {
+			return text, "pkgselect", 0
+		}
 		return text, "eval", 0
 	case "mustbad":
 		return text + "[", "select", 0
@@ -410,6 +413,18 @@ func (x *exec) soloMust(text string, d, c int) Outcome {
 	return o
 }
 
+// pkgSelect goes through the deprecated package-level Select, which compiles
+// and panics on a compile error.
+func pkgSelect(text string, nav xpath.NodeNavigator) (o Outcome) {
+	defer func() {
+		if p := recover(); p != nil {
+			k, v := classifyPanic(p)
+			o = Outcome{Kind: k, V: v}
+		}
+	}()
+	return drain(xpath.Select(nav, text), 0)
+}
+
 func mustSelect(text string, nav xpath.NodeNavigator) (o Outcome) {
 	defer func() {
 		if p := recover(); p != nil {
@@ -418,7 +433,7 @@ func mustSelect(text string, nav xpath.NodeNavigator) (o Outcome) {
 		}
 	}()
 	ex := xpath.MustCompile(text)
-	return drain(ex.Select(nav), 0)
+	return selectAll(ex, nav, 0)
 }
 
 // taskOp runs one operation of a task program on the task's goroutine.
@@ -464,7 +479,7 @@ func (x *exec) taskOp(t *task, i int, st scn.Step) {
 			break
 		}
 		if api == "select" {
-			got = drain(ex.Select(nav), limit)
+			got = selectAll(ex, nav, limit)
 		} else {
 			var it *xpath.NodeIterator
 			got, it = evaluate(ex, nav)
@@ -473,13 +488,17 @@ func (x *exec) taskOp(t *task, i int, st scn.Step) {
 			}
 		}
 	case "compile":
+		if api == "pkgselect" {
+			got = pkgSelect(text, nav)
+			break
+		}
 		ex, co := compile(text)
 		if ex == nil {
 			got = co
 			break
 		}
 		if api == "select" {
-			got = drain(ex.Select(nav), 0)
+			got = selectAll(ex, nav, 0)
 		} else {
 			var it *xpath.NodeIterator
 			got, it = evaluate(ex, nav)
